@@ -14,6 +14,7 @@ Install(st) ==
   /\ coin' = st.coin /\ csupply' = st.csupply /\ tok' = st.tok /\ supply' = st.supply /\ allow' = st.allow
   /\ reg' = st.reg /\ enabled' = st.enabled /\ byDenom' = st.byDenom /\ byToken' = st.byToken
   /\ aliasIdx' = st.aliasIdx /\ mdAlias' = st.mdAlias /\ pool' = st.pool /\ calls' = st.calls /\ gift' = st.gift
+  /\ dead' = st.dead /\ lost' = st.lost
   /\ UNCHANGED <<nconv, ntok, ngov, nprog>>
 
 PInit == Init /\ l = 1
